@@ -1,12 +1,17 @@
 package main
 
 import (
+	_ "verifmc/props/c01"
 	_ "verifmc/props/c02"
+	_ "verifmc/props/c04"
 	_ "verifmc/props/c06"
 	_ "verifmc/props/c07"
 	_ "verifmc/props/c08"
 	_ "verifmc/props/c14"
 	_ "verifmc/props/c16"
+	_ "verifmc/props/c18"
+	_ "verifmc/props/c19"
+	_ "verifmc/props/c20"
 
 	"verifmc/internal/xs"
 )
